@@ -12,8 +12,11 @@ import multiprocessing as mp
 
 ID = sys.argv[1]; n = int(sys.argv[2]) if len(sys.argv) > 2 else 100; seed = int(sys.argv[3]) if len(sys.argv) > 3 else 0
 mod = hz.load_prop(ID)
+off = int(os.environ.get("DETSOAK_OFFSET", "0"))
 cases = []
-for c in mod.plan("quick", seed):
+for k, c in enumerate(mod.plan("quick", seed)):
+    if k < off:
+        continue
     cases.append(c)
     if len(cases) >= n:
         break
